@@ -258,6 +258,10 @@ def run(tier, seed, replay=None):
                 # transfers by the pooled 64 KiB buffer from far offsets: nothing to send, the connection ends - no crash
                 for j, off in enumerate([2 ** 42 - 1, 2 ** 42 + 2048, 2 ** 52, 2 ** 62 - 1]):
                     conns.append({"id": 10 + 10 * k + j, "reqs": [{"op": "OPEN_FILE", "path": pth}, {"op": "READ_FILE_CRITICAL", "limit": 65536, "off": off}]})
+                # offsets that are negative as a signed 64-bit number, limits up to 2^32-1: any answer or a closed connection - no crash
+                for j, (off, lim) in enumerate([(2 ** 63, 1), (2 ** 63 + 5, 4096), (2 ** 64 - 1, 1), (2 ** 64 - 2048, 70000), (0, 2 ** 32 - 1), (5, 2 ** 31)]):
+                    for op in ("READ_FILE", "READ_FILE_CRITICAL"):
+                        conns.append({"id": 40 + 20 * k + 2 * j + (op == "READ_FILE"), "reqs": [{"op": "OPEN_FILE", "path": pth}, {"op": op, "limit": lim, "off": off}]})
             worlds.append({"name": "geometry-%d" % extra, "aw": False, "nodes": nodes, "views": [{"vk": "dvd", "p": ["d"]}], "conns": conns, "probe": True})
         # directories with long / odd names served as images themselves (the name goes into fixed-width volume identifiers)
         rnames = ["R" * 17, "R" * 33, "R" * 129, "R" * 255, "my game (EU) [v1.02] + dlc", "ゲームのディレクトリ名前です", "x" * 16 + "é"]
